@@ -21,13 +21,23 @@ OffZZ3   == { <<0, 0>>, <<24, 7>>, <<699, 197>> }   \* Window 3: ZX198..ZZ200
 SXml(rev, prefix, single, foreign, oc, gaps, decl) ==
     [rev |-> rev, prefix |-> prefix, single |-> single, foreign |-> foreign, oc |-> oc, gaps |-> gaps, decl |-> decl]
 SXStd == SXml(FALSE, "r", FALSE, FALSE, FALSE, FALSE, "std")
-Lay(a, b, p, d) == [rowR |-> a, sstRev |-> b, perm |-> p, pad |-> d, xml |-> SXStd]
+\*                     valsp - the VALUE ALPHABET of the string cells: every string value is its token followed by a
+\*                             special character and a letter: "none", "pipe" |, "bslash" \, "star" *, "under" _,
+\*                             "tick" `, "lt" <, "nl" a line break.  The displayed value of a cell is that string in
+\*                             every view, up to the view's own escaping (Markdown: \| for |, a line break folded
+\*                             to a space), and no view changes it
+Lay(a, b, p, d) == [rowR |-> a, sstRev |-> b, perm |-> p, pad |-> d, xml |-> SXStd, valsp |-> "none"]
 LayX(l, x) == [l EXCEPT !.xml = x]
+LayV(l, v) == [l EXCEPT !.valsp = v]
+ValSpecials == {"pipe", "bslash", "star", "under", "tick", "lt", "nl"}
 LayAll   == { Lay(a, b, <<>>, "none") : a, b \in BOOLEAN }
              \cup { LayX(Lay(TRUE, FALSE, <<>>, "none"), SXml(TRUE, "r", FALSE, TRUE, FALSE, TRUE, "bom")),
                     LayX(Lay(TRUE, TRUE, <<>>, "none"), SXml(FALSE, "rel", TRUE, TRUE, TRUE, FALSE, "none")) }
+             \cup { LayV(Lay(TRUE, FALSE, <<>>, "none"), v) : v \in ValSpecials }
 LayStd   == { Lay(TRUE, FALSE, <<>>, "none") }
-LayTwo   == { Lay(TRUE, FALSE, <<>>, "none"), LayX(Lay(FALSE, TRUE, <<>>, "none"), SXml(TRUE, "ns1", TRUE, TRUE, TRUE, TRUE, "none")) }
+LayMerge == { LayV(Lay(TRUE, FALSE, <<>>, "none"), "pipe") }
+LayTwo   == { LayV(Lay(TRUE, FALSE, <<>>, "none"), "pipe"),
+              LayV(LayX(Lay(FALSE, TRUE, <<>>, "none"), SXml(TRUE, "ns1", TRUE, TRUE, TRUE, TRUE, "none")), "nl") }
 Perms4   == {p \in [1..4 -> 1..4] : \A i, j \in 1..4 : (p[i] = p[j]) => i = j}
 \* shared-string focus: every order of up to 4 items x every padding
 LaySst   == { Lay(TRUE, FALSE, p, d) : p \in Perms4, d \in {"none", "emptyFirst", "emptyMid", "emptyLast", "richFirst"} }
@@ -95,7 +105,7 @@ SheetOut(sh) ==
      covered |-> {[c |-> p[1], r |-> p[2]] : p \in CoveredSet(sh)},
      bounds  |-> Bounds(sh)]
 
-Case == [off |-> off, rot |-> rot, rowR |-> lay.rowR, sstRev |-> lay.sstRev, perm |-> lay.perm, pad |-> lay.pad, xml |-> lay.xml, ncells |-> nv,
+Case == [off |-> off, rot |-> rot, rowR |-> lay.rowR, sstRev |-> lay.sstRev, perm |-> lay.perm, pad |-> lay.pad, xml |-> lay.xml, valsp |-> lay.valsp, ncells |-> nv,
          sst |-> SST, sheets |-> [sh \in 1..cur |-> SheetOut(sh)]]
 
 Emit == (items[cur] # <<>>) => PrintT(ToJson(Case))
